@@ -72,3 +72,29 @@ Definition new_recipient_u (mode : naming) (a : str) : option recipient :=
   end.
 
 End WithLower.
+
+(** * ValidateDomainPart ranges over RUNES (for _, c := range domain), the model over bytes.
+    The rune-level reading, with Go's UTF-8 decoding (Base/Regex.v, decode_rune: an invalid
+    byte is U+FFFD of width 1): *)
+From IV Require Import Base.Regex.
+
+Fixpoint runes (fuel : nat) (s : str) : list N :=
+  match fuel with
+  | O => []
+  | S f => match decode_rune s with
+           | None => []
+           | Some (r, _, rest) => r :: runes f rest
+           end
+  end.
+
+Definition validate_domain_runes (parse_ip : str -> bool) (d : str) : bool :=
+  let ln := N.of_nat (length d) in
+  if ln =? 0 then false
+  else if max_domain_len <? ln then false
+  else if (min_bracket_len <=? ln) && is_bracketed d then parse_ip (ip_inner d)
+  else let d' := if last d 0 =? 46 then d else d ++ [46] in
+       labels_ok (runes (length d') d') 46 0 false.
+
+(** strings.ToLower of the Go library: an ASCII fast path (bytes only), otherwise
+    strings.Map(unicode.ToLower, s), here an arbitrary function [umap] *)
+Definition go_tolower (umap : str -> str) (s : str) : str := if is_ascii s then lower s else umap s.
